@@ -624,6 +624,18 @@ func replay(file string) int {
 		}
 	}
 	if r.V == nil {
+		var kpats []string
+		for k := range r.Known {
+			kpats = append(kpats, k)
+		}
+		sort.Strings(kpats)
+		for _, k := range kpats {
+			fmt.Printf("KNOWN-FINDING: property=%s pattern %s: %s\n", rf.Property, k, strings.ReplaceAll(r.Known[k], "\n", " "))
+		}
+		if len(kpats) > 0 {
+			fmt.Printf("replay of %s: only listed findings on the current tree\n", file)
+			return 0
+		}
 		fmt.Printf("replay of %s: no violation on the current tree\n", file)
 		return 0
 	}
